@@ -649,7 +649,7 @@ func main() {
 	res.DriverUsed = drv != nil
 	res.Rule = "symops: random and compiler-shaped operation sequences on the real tengo.SymbolTable vs the Lean model, every result and the whole table chain compared after every operation (non-trivial = a FREE symbol occurs). " +
 		"meta: programs from lib.NewGen (no top-level return/export) and from the scope-stress generator (captures at depth 1-3, writes and selector writes through captured variables, shadowing, loop-body declarations, closure factories, local recursion); " +
-		"each is compared on the real code with its function-body / module-body placement, IIFE-wrapped sub-expressions (single sites, random subsets, all), injective renamings (values, errors, bytecode) and compositions; " +
+		"plus programs that copy() closures / containers of closures over outer variables and interleave calls of original and copy with direct reads and writes (the copy refers to the same variables wherever they live); each is compared on the real code with its function-body / module-body placement, IIFE-wrapped sub-expressions (single sites, random subsets, all), injective renamings (values, errors, bytecode) and compositions; " +
 		"placements are not compared when a closure may outlive the loop iteration declaring a captured variable (syntactic filter, plus the reference interpreter as a second opinion); non-trivial = at least 5 generator features and a function literal"
 	if f.Replay != "" {
 		replay(f.Replay)
@@ -710,6 +710,24 @@ func main() {
 		g.Feat["scope-stress"] = 5
 		checkProgram(src, g.Feat, r, f.Thorough())
 		if i%20 == 0 {
+			for k, v := range g.Feat {
+				res.Distribution["sfeat:"+k] += v
+			}
+		}
+	}
+	// copy() of closures over outer variables (copygen.go); after the other programs, so that their sequence
+	// for a given seed stays what it was
+	for _, src := range copyCorpus {
+		checkProgram(src, map[string]int{"a": 1, "b": 1, "c": 1, "d": 1, "e": 1}, rng.Fork(), true)
+	}
+	n = f.Scale(140, 600)
+	for i := 0; i < n; i++ {
+		r := rng.Fork()
+		g := newScopeGen(r)
+		src := g.copyProgram()
+		g.Feat["scope-stress"] = 5
+		checkProgram(src, g.Feat, r, f.Thorough())
+		if i%10 == 0 {
 			for k, v := range g.Feat {
 				res.Distribution["sfeat:"+k] += v
 			}
